@@ -1,8 +1,10 @@
 package props
 
 import (
+	"encoding/json"
 	"fmt"
 	"math/big"
+	"strings"
 
 	sdkmath "cosmossdk.io/math"
 	sdk "github.com/cosmos/cosmos-sdk/types"
@@ -13,6 +15,7 @@ import (
 	"github.com/ethereum/go-ethereum/crypto"
 
 	e "haqqsim/engine"
+	"haqqsim/evmprog"
 
 	"github.com/haqq-network/haqq/contracts"
 	erc20types "github.com/haqq-network/haqq/x/erc20/types"
@@ -86,6 +89,11 @@ type c10Token struct {
 type c10Model struct {
 	tokens []c10Token
 	burned map[string]*big.Int // denom -> burned by holders (coin-origin pairs)
+	// batch: a frame-interpreter contract that holds tokens and makes several token
+	// calls in ONE transaction (several Transfer logs from several contracts), and
+	// an honest token that is never registered
+	batcher common.Address
+	zed     common.Address
 }
 
 func c10m(w *e.World) *c10Model { return w.Ext["c10"].(*c10Model) }
@@ -121,9 +129,32 @@ func (c10) Setup(w *e.World) error {
 	if err := deploy("DIRECT", "direct", contracts.ERC20DirectBalanceManipulationContract, big24); err != nil {
 		return err
 	}
-	// distribute tokens: mint (honest) / transfer (others) to every account
-	for i := 0; i < len(w.Accts); i++ {
-		to := w.Acct(i).Eth
+	// the batching contract and the unregistered token
+	{
+		nonce := w.EthNonce(dep.Eth)
+		res, err := w.DoEth(dep, e.EthArgs{Type: 2, Data: evmprog.Deployer(evmprog.FIC()), Gas: 1_000_000})
+		if err != nil || res.Code != 0 {
+			return fmt.Errorf("deploy batcher: %v %s", err, res.Log)
+		}
+		m.batcher = crypto.CreateAddress(dep.Eth, nonce)
+		cc := contracts.ERC20MinterBurnerDecimalsContract
+		ctor, _ := cc.ABI.Pack("", "Zed", "ZED", uint8(18))
+		nonce = w.EthNonce(dep.Eth)
+		res, err = w.DoEth(dep, e.EthArgs{Type: 2, Data: append(append([]byte{}, cc.Bin...), ctor...), Gas: 5_000_000})
+		if err != nil || res.Code != 0 {
+			return fmt.Errorf("deploy ZED: %v %s", err, res.Log)
+		}
+		m.zed = crypto.CreateAddress(dep.Eth, nonce)
+		data, _ := cc.ABI.Pack("mint", m.batcher, e.BigS("5000000000000000000000"))
+		z := m.zed
+		w.DoEth(dep, e.EthArgs{Type: 2, To: &z, Data: data, Gas: 300_000})
+	}
+	// distribute tokens: mint (honest) / transfer (others) to every account and to the batcher
+	for i := 0; i <= len(w.Accts); i++ {
+		to := m.batcher
+		if i < len(w.Accts) {
+			to = w.Acct(i).Eth
+		}
 		for ti, t := range m.tokens {
 			method := "transfer"
 			if ti == 0 {
@@ -164,6 +195,23 @@ func (c10) Setup(w *e.World) error {
 		return fmt.Errorf("expected 4 token pairs after setup, have %d", n)
 	}
 	return nil
+}
+
+// c10Call is one token call of a batch.
+type c10Call struct {
+	Tok int    `json:"tok"` // pair index, -1: the unregistered token
+	To  int    `json:"to"`  // account index, -1: the erc20 module address
+	Amt string `json:"amt"`
+}
+
+// hexResolver resolves "0x…" targets and hex call data for the frame interpreter.
+type hexResolver struct{}
+
+func (hexResolver) Address(t string) (common.Address, bool) {
+	return common.HexToAddress(t), strings.HasPrefix(t, "0x")
+}
+func (hexResolver) CallData(n *evmprog.Node) ([]byte, bool) {
+	return common.FromHex(n.Data), n.Data != ""
 }
 
 func pairs(w *e.World) []erc20types.TokenPair { return w.App().Erc20Keeper.GetTokenPairs(w.Ctx()) }
@@ -222,6 +270,23 @@ func (c10) Gen(w *e.World, r *e.RNG) e.Step {
 		toModule := int64(0)
 		if r.Chance(0.5) {
 			toModule = 1
+		}
+		if r.Chance(0.2) {
+			// several token calls in one transaction through the batching contract:
+			// registered tokens and the unregistered one, to the module address or accounts
+			var calls []c10Call
+			for i := 2 + r.Intn(3); i > 0; i-- {
+				c := c10Call{Tok: r.Intn(len(ps) + 2), To: w.AnyAcct(r), Amt: big.NewInt(r.Range(1, 100000)).String()}
+				if r.Chance(0.6) {
+					c.To = -1 // the erc20 module address
+				}
+				if r.Chance(0.35) {
+					c.Tok = -1 // the unregistered token
+				}
+				calls = append(calls, c)
+			}
+			pp, _ := json.Marshal(calls)
+			return e.Step{K: "tx", Op: "erc20_batch", A: a, P: pp}
 		}
 		if r.Chance(0.2) {
 			// an allowance (towards the module address or an account) moves nothing
@@ -352,6 +417,40 @@ func (p c10) Exec(w *e.World, st *e.Step) *e.Violation {
 	ps := pairs(w)
 	if _, isLib := Ops[st.Op]; isLib {
 		ExecOp(w, st)
+		return c10Backing(w, st.Op)
+	}
+	if st.Op == "erc20_batch" && len(ps) > 0 && st.A < len(w.Accts) {
+		var calls []c10Call
+		if json.Unmarshal(st.P, &calls) != nil {
+			return nil
+		}
+		var nodes []*evmprog.Node
+		for _, c := range calls {
+			tok := m.zed
+			if c.Tok >= 0 {
+				tok = ps[c.Tok%len(ps)].GetERC20Contract()
+			}
+			to := erc20types.ModuleAddress
+			if c.To >= 0 {
+				to = w.Acct(c.To).Eth
+			}
+			data, err := contracts.ERC20MinterBurnerDecimalsContract.ABI.Pack("transfer", to, e.BigS(c.Amt))
+			if err != nil {
+				return nil
+			}
+			nodes = append(nodes, &evmprog.Node{Kind: evmprog.OpCall, Target: tok.Hex(), Catch: true, Data: common.Bytes2Hex(data)})
+		}
+		code, err := evmprog.Encode(nodes, hexResolver{})
+		if err != nil {
+			return nil
+		}
+		b := m.batcher
+		res, err := w.DoEth(w.Acct(st.A), e.EthArgs{Type: 2, To: &b, Data: code, Gas: 3_000_000})
+		if err != nil {
+			return nil
+		}
+		w.Stats.Op(st.Op, res.Code == 0)
+		w.Stats.Probe("multi_log_token_tx")
 		return c10Backing(w, st.Op)
 	}
 	if len(ps) == 0 || st.A >= len(w.Accts) {
